@@ -1,8 +1,10 @@
 ------------------------------ MODULE MC_Lexer ------------------------------
 EXTENDS Lexer
 StmtsA == { St("lab", "g1", 0, 0), St("i0", "", 0, 0), St("i1n", "", 5, 0), St("i1l", "g1", 0, 0), St("i1r", "a", 0, 0),
-            St("i1r", "b", 0, 0), St("dat", "", 17, 34), St("i1c", "", 97, 0), St("i1c", "", 65, 0), St("str", "", 0, 0) }
-StmtsB == { St("lab", "g1", 0, 0), St("i0", "", 0, 0), St("i1n", "", 5, 0), St("i1l", "g1", 0, 0), St("i1r", "a", 0, 0), St("dat", "", 17, 34) }
+            St("i1r", "b", 0, 0), St("dat", "", 17, 34), St("i1c", "", 97, 0), St("i1c", "", 65, 0), St("str", "", 0, 0),
+            St("lab", "l1", 0, 0), St("i1l", "l1", 0, 0) }
+StmtsB == { St("lab", "g1", 0, 0), St("i0", "", 0, 0), St("i1n", "", 5, 0), St("i1l", "g1", 0, 0), St("i1r", "a", 0, 0), St("dat", "", 17, 34),
+            St("lab", "l1", 0, 0), St("i1l", "l1", 0, 0) }
 StylesAll == { Sy(c, s, m, p) : c \in {"lo", "up", "mi"}, s \in {"s1", "s3", "tab", "ts"}, m \in {"none", "plain", "quotes"},
                                 p \in {"own", "join", "blank"} }
 StylesHalf == { Sy(c, s, "none", p) : c \in {"lo", "up", "mi"}, s \in {"s1", "s3", "tab", "ts"}, p \in {"own", "join", "blank"} }
